@@ -19,7 +19,7 @@ import (
 
 func cmd(op string, a ...float64) gen.Cmd { return gen.Cmd{Op: op, A: a} }
 
-// reverseClosed returns the same closed outline traversed the other way. Only L and circular A (rot 0) occur.
+// reverseClosed returns the same closed outline traversed the other way. Only L, C and circular A (rot 0) occur.
 func reverseClosed(cs []gen.Cmd) []gen.Cmd {
 	// points: start, then the end of every drawing command
 	type seg struct {
@@ -37,6 +37,9 @@ func reverseClosed(cs []gen.Cmd) []gen.Cmd {
 		case "A":
 			segs = append(segs, seg{c, x, y})
 			x, y = c.A[5], c.A[6]
+		case "C":
+			segs = append(segs, seg{c, x, y})
+			x, y = c.A[4], c.A[5]
 		case "z":
 			if x != sx || y != sy {
 				segs = append(segs, seg{cmd("L", sx, sy), x, y})
@@ -52,6 +55,8 @@ func reverseClosed(cs []gen.Cmd) []gen.Cmd {
 			out = append(out, cmd("L", s.x0, s.y0))
 		case "A":
 			out = append(out, cmd("A", s.c.A[0], s.c.A[1], s.c.A[2], s.c.A[3], 1-s.c.A[4], s.x0, s.y0))
+		case "C":
+			out = append(out, cmd("C", s.c.A[2], s.c.A[3], s.c.A[0], s.c.A[1], s.x0, s.y0))
 		}
 	}
 	return append(out, cmd("z"))
@@ -60,7 +65,15 @@ func reverseClosed(cs []gen.Cmd) []gen.Cmd {
 func genShape(t *rapid.T, ox, oy float64) []gen.Cmd {
 	u := func(label string, lo, hi int) float64 { return float64(gen.Uniform(t, label, lo, hi)) / 8 }
 	var cs []gen.Cmd
-	switch rapid.IntRange(0, 6).Draw(t, "family") {
+	switch rapid.IntRange(0, 7).Draw(t, "family") {
+	case 7: // an S-shaped cubic (one inflection point) that leaves and reaches its vertices with a horizontal tangent
+		w, h := u("w", 16, 80), u("h", 16, 80)
+		d, e, f := u("d", 8, 40), u("e", 0, 40), u("f", 8, 40)
+		if rapid.Bool().Draw(t, "left") { // heading -x
+			cs = append(cs, cmd("M", ox, oy), cmd("C", ox-w, oy, ox, oy-h, ox-w, oy-h), cmd("L", ox-w-d, oy-h-e), cmd("L", ox-w-d, oy+f), cmd("L", ox, oy+f), cmd("z"))
+		} else { // heading +x
+			cs = append(cs, cmd("M", ox, oy), cmd("C", ox+w, oy, ox, oy+h, ox+w, oy+h), cmd("L", ox+w+d, oy+h+e), cmd("L", ox+w+d, oy-f), cmd("L", ox, oy-f), cmd("z"))
+		}
 	case 0: // comb: teeth of equal or different height above a base, valleys on one or several levels
 		n := rapid.IntRange(2, 4).Draw(t, "teeth")
 		H := u("H", 24, 64)
